@@ -160,6 +160,7 @@ def const(v):
 
 
 UNREACHED = [0]
+SHOWN = [0]
 
 
 def run_est(kind, df, meta, gen, stab, rx, fS=None, fA=None, fQ=None):
@@ -258,6 +259,13 @@ def run_est(kind, df, meta, gen, stab, rx, fS=None, fA=None, fQ=None):
                 res['q1'], sp1 = table(e._YA1, K, allm, ns)
                 res['q0'], sp0 = table(e._YA0, K, allm, ns)
                 res['spread'] = max(res['spread'], sp1, sp0)
+        SHOWN[0] += 1
+        if SHOWN[0] % 2 == 0:
+            # the documented display call between fit() and reading the results must not alter them
+            import io
+            import contextlib
+            with contextlib.redirect_stdout(io.StringIO()):
+                e.summary(decimal=[0, 2, 3][SHOWN[0] // 2 % 3])
         res['rd'], res['rr'] = float(e.risk_difference), float(e.risk_ratio)
     except Exception as ex:   # noqa
         return {'error': '%s: %s' % (type(ex).__name__, str(ex)[:160])}
